@@ -71,6 +71,31 @@ def decode_case(v):
     return v
 
 
+def jcopy(v):
+    """deep copy of a JSON value without recursion (the harness must not be what fails on a deeply nested spec)"""
+    if not isinstance(v, (dict, list)):
+        return v
+    root = {} if isinstance(v, dict) else []
+    todo = [(v, root)]
+    while todo:
+        src, dst = todo.pop()
+        items = src.items() if isinstance(src, dict) else enumerate(src)
+        for k, x in items:
+            if isinstance(x, dict):
+                y = {}
+                todo.append((x, y))
+            elif isinstance(x, list):
+                y = []
+                todo.append((x, y))
+            else:
+                y = x
+            if isinstance(dst, dict):
+                dst[k] = y
+            else:
+                dst.append(y)
+    return root
+
+
 # --------------------------------------------------------------------------- kr8s' class registry
 # kr8s.objects.get_class walks every APIObject subclass ever created in the process: a class registered by one
 # case must not influence an unrelated later case.
@@ -190,11 +215,11 @@ def _impl_prepare(kind: str, spec, via_cache: bool = False, name: str | None = N
         if via_cache:
             got = ku.run(cache.prepare_and_cache(resource_class=cls, preparer=prep,
                                                  metadata={"name": name, "resourceVersion": "1"},
-                                                 spec=copy.deepcopy(spec)))
+                                                 spec=expand_deep(spec)))
             c = ku.outcome_class(got)
             r = "prepared" if c == "ok" else c
         else:
-            got = ku.run(prep(name, copy.deepcopy(spec)))
+            got = ku.run(prep(name, expand_deep(spec)))
             if isinstance(got, tuple):
                 r = "prepared"
             else:
@@ -206,7 +231,15 @@ def _impl_prepare(kind: str, spec, via_cache: bool = False, name: str | None = N
     except BaseException as e:  # noqa: BLE001   (that it raises is the observation)
         if isinstance(e, (KeyboardInterrupt, SystemExit)):
             raise
-        r, msg = "raised", type(e).__name__ + ": " + str(e)[:120]
+        import traceback
+
+        frames = [f for f in traceback.extract_tb(e.__traceback__) if "/harness/" not in f.filename]
+        where = ""
+        if frames:
+            own = [f for f in frames if "/koreo/" in f.filename]
+            f = (own or frames)[-1]
+            where = f" [in {f.filename.rsplit('/', 2)[-2]}/{f.filename.rsplit('/', 1)[-1]}:{f.name}]"
+        r, msg = "raised", type(e).__name__ + ": " + str(e)[:120] + where
     return {"r": r, "compile": COUNTS["compile"], "lookup": COUNTS["lookup"], "msg": msg}
 
 
@@ -459,6 +492,89 @@ API_STRINGS = ["a/b/c", "x/y/z/w", "a//b", "/", "//", "apps/v1", "example.com/v1
                "Foo/v2", "a\u0000b", "", " ", "é/ü/ß", "a.b/c.d/e"]
 
 
+_READ_KEYS: list | None = None
+
+
+def read_keys() -> list:
+    """every key the prepare code reads from a spec (`x.get("k")`, `x["k"]`, `case {"k": …}`), from the sources:
+    the schema leaves some of them unconstrained where the code dereferences them"""
+    global _READ_KEYS
+    if _READ_KEYS is None:
+        import ast
+
+        keys = set()
+        src = common.REPO / "src" / "koreo"
+        for rel in ("value_function/prepare.py", "resource_function/prepare.py", "resource_template/prepare.py",
+                    "workflow/prepare.py", "function_test/prepare.py", "ref_helpers.py", "predicate_helpers.py",
+                    "cel/prepare.py"):
+            try:
+                tree = ast.parse((src / rel).read_text())
+            except Exception:
+                continue
+            for n in ast.walk(tree):
+                if isinstance(n, ast.Call) and isinstance(n.func, ast.Attribute) and n.func.attr in ("get", "pop") \
+                        and n.args and isinstance(n.args[0], ast.Constant) and isinstance(n.args[0].value, str):
+                    keys.add(n.args[0].value)
+                elif isinstance(n, ast.Subscript) and isinstance(n.slice, ast.Constant) and isinstance(n.slice.value, str):
+                    keys.add(n.slice.value)
+                elif isinstance(n, ast.MatchMapping):
+                    keys.update(k.value for k in n.keys if isinstance(k, ast.Constant) and isinstance(k.value, str))
+        _READ_KEYS = sorted(keys) or ["condition", "state", "name", "kind"]
+    return _READ_KEYS
+
+
+def deep_value(r, depth: int):
+    """maps and lists nested `depth` levels — as a marker; `expand_deep` builds the value right before the
+    real code gets it (the harness' own walks, copies and JSON files never see the deep structure)"""
+    return {"$deep": [depth, r.choice(["map", "list", "mix"]), r.choice([1, "s", "=inputs.a", None])]}
+
+
+def _build_deep(depth, style, leaf, cap=None):
+    """`cap`: only the outermost `cap` levels (same outer shape, shallow inside)"""
+    v = leaf
+    for i in range(0 if cap is None else max(0, depth - cap), depth):
+        v = {"a": v} if style == "map" or (style == "mix" and i % 2) else [v]
+    return v
+
+
+def _is_deep(x) -> bool:
+    return (isinstance(x, dict) and set(x) == {"$deep"} and isinstance(x["$deep"], list) and len(x["$deep"]) == 3
+            and isinstance(x["$deep"][0], int) and not isinstance(x["$deep"][0], bool) and 0 <= x["$deep"][0] <= 10000
+            and x["$deep"][1] in ("map", "list", "mix") and not isinstance(x["$deep"][2], (dict, list)))
+
+
+def expand_deep(v, cap: int | None = None):
+    """copy of a spec with every `$deep` marker replaced by the nested value (at most `cap` levels)"""
+    def conv(x):
+        if _is_deep(x):
+            d, style, leaf = x["$deep"]
+            return _build_deep(d, style, leaf, cap), True
+        return x, False
+
+    v, done = conv(v)
+    if done or not isinstance(v, (dict, list)):
+        return v
+    root = {} if isinstance(v, dict) else []
+    todo = [(v, root)]
+    while todo:
+        src, dst = todo.pop()
+        for k, x in (src.items() if isinstance(src, dict) else enumerate(src)):
+            x, done = conv(x)
+            if not done and isinstance(x, dict):
+                y = {}
+                todo.append((x, y))
+            elif not done and isinstance(x, list):
+                y = []
+                todo.append((x, y))
+            else:
+                y = x
+            if isinstance(dst, dict):
+                dst[k] = y
+            else:
+                dst.append(y)
+    return root
+
+
 def paths(v, pre=()):
     """every (path, value) in a JSON value"""
     yield pre, v
@@ -497,7 +613,7 @@ def mutate(kind: str, spec, r):
 def _mutate(kind: str, spec, r):
     s = copy.deepcopy(spec)
     op = r.choice(["none", "type", "type", "type", "delete", "delete", "oversize", "enum", "oneof", "extra",
-                   "junk-root", "two", "number", "number", "apistr"])
+                   "junk-root", "two", "number", "number", "apistr", "ghost", "ghost", "ghost", "deep"])
     if op == "none":
         return s, op
     if op == "two":
@@ -507,6 +623,21 @@ def _mutate(kind: str, spec, r):
     if op == "junk-root" or not isinstance(s, dict):
         return r.choice(JUNK), "junk-root"
     ps = list(paths(s))
+    if op == "ghost":
+        # a key the code reads, put where the schema may not expect (or constrain) it, with a value of any type
+        dicts = [(p, v) for p, v in ps if isinstance(v, dict)]
+        p, d = r.choice(dicts)
+        d[r.choice(read_keys())] = copy.deepcopy(r.choice(JUNK))
+        return s, op
+    if op == "deep":
+        # deep nesting inside a free-form block (or anywhere)
+        dicts = [(p, v) for p, v in ps if isinstance(v, dict) and p]
+        if not dicts:
+            return s, "none"
+        p, d = r.choice(dicts)
+        depth = r.choice([10, 50, 120, 300, 700, 1100, 1600, 2500, 5000])
+        d[r.choice(list(d) or ["deep"]) if r.random() < 0.5 else "deep"] = deep_value(r, depth)
+        return s, f"deep:{depth}"
     if op == "number":
         # a numeric leaf (delays, counts, static values) — or, failing that, any scalar leaf — gets another number
         nums = [(p, v) for p, v in ps if isinstance(v, (int, float)) and not isinstance(v, bool)]
@@ -633,7 +764,9 @@ def crd_schemas() -> dict:
 
 def independent_verdicts(specs: list) -> list:
     """[[valid?, first error]] from the jsonschema package, run under python3-vt in a side process"""
-    payload = dumps_big({"schemas": crd_schemas(), "specs": specs})
+    # a deeply nested value is judged through a 3-level stand-in of the same shape (the free-form blocks it sits in
+    # are not looked into by the schema; elsewhere its first levels decide)
+    payload = dumps_big({"schemas": crd_schemas(), "specs": [[k, expand_deep(sp, cap=3)] for k, sp in specs]})
     try:
         p = subprocess.run(["python3-vt", "-c", SIDE], input=payload, capture_output=True, text=True, timeout=900)
     except (FileNotFoundError, subprocess.TimeoutExpired) as e:
@@ -806,8 +939,9 @@ ODD_INPUT_EXPRS = ["inputs.x", "inputs2.zone", 'inputs["zone"]', 'inputs[".zone"
 
 def gen_dependency(r, name: str):
     """a definition other definitions refer to, in some state of health; step None = it does not exist"""
-    kind = r.choice(["ValueFunction", "ValueFunction", "ResourceFunction", "Workflow", "Workflow"])
-    flavour = r.choice(["healthy", "healthy", "absent", "permfail", "cached-retry", "cached-permfail", "not-ready"])
+    kind = r.choice(["ValueFunction", "ValueFunction", "ResourceFunction", "ResourceFunction", "Workflow", "Workflow"])
+    flavour = r.choice(["healthy", "healthy", "healthy", "absent", "permfail", "cached-retry", "cached-permfail",
+                        "not-ready"])
     step = {"resource": kind, "via_cache": True, "name": name}
     if flavour == "absent":
         return kind, flavour, None
@@ -860,7 +994,7 @@ def gen_dependent_sequence(r):
         if kind == "ValueFunction":
             users += ["overlayRef", "overlayRef", "function-test"]
         if kind == "ResourceFunction":
-            users += ["function-test"]
+            users += ["function-test", "function-test", "function-test"]
         user = r.choice(users)
         if user == "overlayRef":
             given = r.sample(["x", "zone", "a", "y", "k"], r.randint(0, 3))
@@ -882,8 +1016,16 @@ def gen_dependent_sequence(r):
             spec = {"steps": [{"label": "uses", "refSwitch": {"switchOn": "=parent.kind", "cases": cases}}]}
             steps.append({"resource": "Workflow", "spec": spec, "via_cache": via})
         else:
-            spec = {"functionRef": {"kind": kind, "name": name}, "inputs": {"t": r.choice(["a", 5]), "x": 1},
-                    "testCases": [{"expectReturn": {"r0": 1}}, {"inputOverrides": {"t": "b"}, "expectReturn": {"r0": 2}}]}
+            # the template name of a ResourceFunction under test (`=inputs.t`, `=locals.p`, …) is evaluated per test
+            # case: let it come out as every JSON type, through `inputs` and through `inputOverrides`
+            tvals = ["a", 5, 2.5, True, None, ["x", "y"], {"k": "v"}, [], {}, [["n"]], {"a": {"b": 1}}]
+            spec = {"functionRef": {"kind": kind, "name": name}, "inputs": {"t": r.choice(tvals), "x": 1},
+                    "testCases": [{"expectReturn": {"r0": 1}},
+                                  {"inputOverrides": {"t": r.choice(tvals)}, "expectReturn": {"r0": 2}},
+                                  {"inputOverrides": {"t": r.choice(tvals), "x": r.choice(tvals)}, "expectDelete": False}
+                                  ][: r.randint(1, 3)]}
+            if r.random() < 0.3:
+                del spec["inputs"]
             steps.append({"resource": "FunctionTest", "spec": spec, "via_cache": via})
     return steps, f"{kind}:{flavour}"
 
@@ -972,6 +1114,158 @@ def run_sequences(ck: Check, drv: LeanDriver, n: int, r):
         mine = [res["r"] for res in results]
         if ans.get("results") != mine or ans.get("usable") is not True:
             ck.disagree({"kind": "sequence", "steps": encode_case(steps)}, ans, mine, "registry-sequence")
+
+
+# --------------------------------------------------------------------------- members the schema leaves open
+
+PREPARE_MODULES = {
+    "ValueFunction": ["value_function/prepare.py", "predicate_helpers.py", "cel/prepare.py"],
+    "ResourceFunction": ["resource_function/prepare.py", "predicate_helpers.py", "cel/prepare.py"],
+    "ResourceTemplate": ["resource_template/prepare.py"],
+    "Workflow": ["workflow/prepare.py", "cel/prepare.py"],
+    "FunctionTest": ["function_test/prepare.py", "ref_helpers.py", "predicate_helpers.py", "cel/prepare.py"],
+}
+GHOST_VALUES = ["s", 7, ["x"], True, {"a": 1}]
+
+
+def keys_read_by(kind: str) -> list:
+    import ast
+
+    keys = set()
+    for rel in PREPARE_MODULES[kind]:
+        try:
+            tree = ast.parse((common.REPO / "src" / "koreo" / rel).read_text())
+        except Exception:
+            continue
+        for n in ast.walk(tree):
+            if isinstance(n, ast.Call) and isinstance(n.func, ast.Attribute) and n.func.attr in ("get", "pop") \
+                    and n.args and isinstance(n.args[0], ast.Constant) and isinstance(n.args[0].value, str):
+                keys.add(n.args[0].value)
+            elif isinstance(n, ast.Subscript) and isinstance(n.slice, ast.Constant) and isinstance(n.slice.value, str):
+                keys.add(n.slice.value)
+            elif isinstance(n, ast.MatchMapping):
+                keys.update(k.value for k in n.keys if isinstance(k, ast.Constant) and isinstance(k.value, str))
+    return sorted(keys)
+
+
+def ghost_placements(kind: str, spec, schema) -> list:
+    """(path of a mapping in the spec, key): a key the kind's prepare code reads, at a place where the CRD schema
+    does not declare it — i.e. a member the schema leaves unconstrained and the code may dereference"""
+    out = []
+    keys = keys_read_by(kind)
+    for p, v in paths(spec):
+        if not isinstance(v, dict):
+            continue
+        node, free = schema, False
+        for q in p:
+            if node is None:
+                break
+            if node.get("x-kubernetes-preserve-unknown-fields"):
+                free = True
+                break
+            node = node.get("items") if isinstance(q, int) else (node.get("properties") or {}).get(q)
+        if free or (node is not None and node.get("x-kubernetes-preserve-unknown-fields")):
+            continue          # payload (inputs, return, template, …), not structure the code walks by key
+        declared = (node.get("properties") or {}) if node is not None else {}
+        out += [(p, k) for k in keys if k not in declared]
+    return out
+
+
+TYPE_VALUES = [None, True, 7, 1.5, "s", ["x"], {"a": 1}, [], {}]
+
+
+def declared_placements(spec, schema) -> list:
+    """(path of a mapping in the spec, declared property): every member the CRD schema declares at a mapping the
+    well-formed spec has — present in the spec or not"""
+    out = []
+    for p, v in paths(spec):
+        if not isinstance(v, dict):
+            continue
+        node = schema
+        for q in p:
+            if node is None or node.get("x-kubernetes-preserve-unknown-fields"):
+                node = None
+                break
+            node = node.get("items") if isinstance(q, int) else (node.get("properties") or {}).get(q)
+        if node is None:
+            continue
+        out += [(p, k) for k in (node.get("properties") or {})]
+    return out
+
+
+def run_ghosts(ck: Check, r, every_value: bool):
+    """systematically: every undeclared-but-read key at every mapping of a well-formed spec of each kind, holding a
+    value of each non-mapping type (quick: one value per placement, in rotation)"""
+    setup_world()
+    schemas = crd_schemas()
+    cases = []
+    for kind in KINDS:
+        spec = base_spec(kind, r)
+        for i, (p, k) in enumerate(ghost_placements(kind, spec, schemas[kind])):
+            vals = GHOST_VALUES if every_value else [GHOST_VALUES[(i + common.seed()) % 4]]
+            for val in vals:
+                sp = copy.deepcopy(spec)
+                get_at(sp, p)[k] = copy.deepcopy(val)
+                cases.append((kind, sp, ".".join(map(str, p)) + "." + k))
+        # and every declared member holding a value of every JSON type
+        for i, (p, k) in enumerate(declared_placements(spec, schemas[kind])):
+            vals = TYPE_VALUES if every_value else [TYPE_VALUES[(i + j + common.seed()) % len(TYPE_VALUES)] for j in (0, 4)]
+            for val in vals:
+                sp = copy.deepcopy(spec)
+                get_at(sp, p)[k] = copy.deepcopy(val)
+                cases.append((kind, sp, ".".join(map(str, p)) + "." + k + "=" + type(val).__name__))
+    verdicts = independent_verdicts([[k, sp] for k, sp, _ in cases])
+    for (kind, sp, where), verdict in zip(cases, verdicts):
+        res = impl_prepare(kind, sp)
+        ck.evaluated()
+        ck.count(f"ghost:{'valid' if verdict[0] else 'invalid'}->{res['r']}")
+        ck.nontriv(hash(kind + where + repr(type(get_at(sp, [])))))
+        bad = spec_oracle(verdict, res)
+        if bad and len(ck.violations) < 200:
+            small = sp
+            if len(ck.violations) < 6:
+                def fails(c, kind=kind):
+                    v = independent_verdicts([[kind, c]])[0]
+                    return spec_oracle(v, impl_prepare(kind, c)) is not None
+                try:
+                    small = shrink_spec(kind, sp, fails)
+                except common.Infra:
+                    pass
+            ck.violate({"kind": "spec", "resource": kind, "spec": encode_case(small), "mutation": f"ghost:{where}"},
+                       f"{kind}: undeclared member `{where}`: {bad}")
+
+
+def run_foreach_condition(ck: Check, drv: LeanDriver):
+    """`forEach.condition` (not in the CRD schema) holding every kind of value: real prepare_workflow vs the model"""
+    c14.setup_cache()
+    env_entries = [c14.cache_state(k, nm) for k, nm in c14.REFS]
+    vals = [{"type": "Each", "name": "n"}, {}, None, "", 0, "s", 7, 1.5, True, ["x"], [], {"other": 1}]
+    reqs, keep = [], []
+    for val in vals:
+        for extra in ({}, {"inputKey": ""}):
+            fe = {"itemIn": "=steps.first.items", "inputKey": "item", "condition": val, **extra}
+            spec = {"steps": [{"label": "first", "ref": {"kind": "ValueFunction", "name": "vf_ok1"}},
+                              {"label": "second", "ref": {"kind": "ValueFunction", "name": "vf_ok2"}, "forEach": fe}]}
+            got = c14.impl_workflow(spec)
+            ck.evaluated()
+            ck.count("forEach.condition:" + ("raise" if "raise" in got else "gate" if "gate" in got else
+                                             "prepared" if "deps" in got["steps"][1] else got["steps"][1]["err"]))
+            if "raise" in got:
+                if len(ck.violations) < 200:
+                    ck.violate({"kind": "prepare", "resource": "Workflow", "spec": spec},
+                               f"prepare of Workflow with forEach.condition = {val!r} raised {got['raise']}")
+                continue
+            if "gate" in got:
+                continue
+            reqs.append(c14.workflow_request(spec, env_entries))
+            keep.append((spec, got))
+    for (spec, got), ans in zip(keep, c14.ask(ck, drv, reqs)):
+        if ans is None:
+            continue
+        model = c14.canon_model_wf(ans)
+        mine = {k: got[k] for k in ("steps", "ready", "watched", "pp")}
+        if model != mine:
+            ck.disagree({"kind": "workflow", "spec": spec}, model, mine, "forEach.condition")
 
 
 # --------------------------------------------------------------------------- overlayRef inputs vs the model
@@ -1109,7 +1403,9 @@ def run(tier: str) -> int:
     run_expressions(ck, drv, 2600 if quick else 50000, r)
     ck.notes.append(f"expression stream: {time.time() - t0:.1f}s")
     t0 = time.time()
-    run_specs(ck, drv, 3000 if quick else 100000, r)
+    run_ghosts(ck, r, every_value=not quick)
+    run_foreach_condition(ck, drv)
+    run_specs(ck, drv, 3000 if quick else 80000, r)
     ck.notes.append(f"spec stream: {time.time() - t0:.1f}s")
     t0 = time.time()
     run_sequences(ck, drv, 800 if quick else 12000, r)
